@@ -498,6 +498,8 @@ def run_analysis(case):
     kseq = [int(x) for x in rng.integers(0, 2, nb + 2)]
 
     conv = int(rng.choice([1, 2, 3, 5, 8])) if (rng.random() < 0.4 and kind != 'preprocess_raises') or kind == 'run_refused' else None
+    if kind == 'preprocess_raises' and klass.endswith('Attack') and rng.random() < 0.6:
+        conv = int(rng.choice([1, 2, 3, 5]))          # a run with convergence points interrupted in its middle
     info['convergence_step'] = conv
 
     def fresh():
@@ -571,18 +573,44 @@ def run_analysis(case):
             except RuntimeError as e:
                 raised = repr(e)
             state['armed'] = False
+            if raised is None and conv is not None and state['calls'] <= state['fail_at']:
+                # with a convergence step the batches are longer than the configured length: the run had fewer batches than the failing position
+                r = core.held(0, nontrivial=False, counters=dict(t.counters, generator_rejected_failing_batch_beyond_the_run=1))
+                r['metrics'] = {}
+                return r
             t.count('analysis_run_interruptions')
             t.check(raised is not None, 'preprocess_failure_swallowed_by_run', info)
-            t.check(int(a.processed_traces) == j * bs, 'interrupted_run_count_wrong', lambda: dict(info, processed_traces=int(a.processed_traces), expected=j * bs))
-            if j >= 1:
+            done = int(a.processed_traces)
+            if conv is None:
+                t.check(done == j * bs, 'interrupted_run_count_wrong', lambda: dict(info, processed_traces=done, expected=j * bs))
+            else:
+                # the batch length is derived from the convergence step: the accepted prefix is whatever was counted, a whole number of batches
+                t.check(0 <= done <= N and (j == 0) == (done == 0), 'interrupted_run_count_wrong', lambda: dict(info, processed_traces=done, failed_batch=j))
+                # convergence columns present right after the interruption: only columns that the accepted batches produced
+                ct = getattr(a, 'convergence_traces', None)
+                ncols = 0 if ct is None else int(np.shape(ct)[-1])
+                pc, npc = None, 0
+                if done >= 1:
+                    pre_c = fresh()
+                    pre_c.run(scared.Container(ths[:done]))
+                    pc = pre_c.convergence_traces
+                    npc = 0 if pc is None else int(np.shape(pc)[-1])
+                t.count('convergence_columns_after_interrupted_run', ncols)
+                okc = ncols <= npc and (ncols == 0 or tol.same(np.array(ct), np.array(pc)[..., :ncols]))
+                t.check(okc, 'interrupted_run_left_convergence_columns_that_no_accepted_batch_produced',
+                        lambda: dict(info, processed_traces=done, columns=ncols, columns_of_a_run_on_the_accepted_traces=npc))
+
+            def no_conv(obs):
+                return [(la, x) for la, x in obs if la != 'convergence_traces' or conv is None]
+            if done >= 1:
                 pre = fresh()
-                pre.run(scared.Container(ths[:j * bs]))
+                pre.run(scared.Container(ths[:done]))
                 a.compute_results()
-                _same_results(t, klass, _observe_analysis(a), _observe_analysis(pre), 'interrupted_run_differs_from_accepted_batches', info)
-            a.run(scared.Container(ths[j * bs:], preprocesses=[spy]))
+                _same_results(t, klass, no_conv(_observe_analysis(a)), no_conv(_observe_analysis(pre)), 'interrupted_run_differs_from_accepted_batches', info)
+            a.run(scared.Container(ths[done:], preprocesses=[spy]))
             t.check(int(a.processed_traces) == N, 'count_differs_after_rejected_call', lambda: dict(info, processed_traces=int(a.processed_traces)))
             t.count('later_results_compared')
-            _same_results(t, klass, _observe_analysis(a), _observe_analysis(full), 'resumed_run_differs_from_uninterrupted_run', info)
+            _same_results(t, klass, no_conv(_observe_analysis(a)), no_conv(_observe_analysis(full)), 'resumed_run_differs_from_uninterrupted_run', info)
         finally:
             scared.set_batch_size(None)
         return t.result(sig=f"{klass}|{kind}|{N}|{bs}|{j}|{prec}", sample=dict(case=case, derived=info))
